@@ -215,6 +215,11 @@ impl<'a, H: HashChain> InMemoryHssPublicKey<'a, H> {
 
         let public_key = InMemoryLmsPublicKey::new(&data[index..])?;
 
+        // RFC 8554, Algorithm 6: the public key must have exactly the length its type implies
+        if data.len() != index + public_key.as_slice().len() {
+            return None;
+        }
+
         Some(Self {
             public_key,
             level: level as usize,
